@@ -382,15 +382,18 @@ pub fn run_c07(tier: &str, seed: u64) -> campaign::CampaignResult {
         finding: Option<(Vec<Op>, Vec<Op>, u16, String)>,
         sample: Option<serde_json::Value>,
     }
+    let items: Vec<(&Program, &str)> = programs.iter().map(|pc| (&pc.program, pc.source.as_str())).collect();
+    let builts = pipeline::build_all(&items, Mode::Module);
     let results: Vec<PP> = programs
         .par_iter()
-        .map(|pc| {
+        .zip(builts.into_par_iter())
+        .map(|(pc, built)| {
             let mut pp = PP { built: false, rows: vec![], finding: None, sample: None };
             let rules = match flat::flatten_program(&pc.program) {
                 Ok(r) => r,
                 Err(_) => return pp,
             };
-            let built = match pipeline::build_driver(&pc.program, &pc.source, Mode::Module) {
+            let built = match built {
                 Ok(b) => b,
                 Err(_) => return pp,
             };
